@@ -392,6 +392,40 @@ theorem cleanupLoop_eq (now a : Int) (s : Store ι κ ν) (h : WF s) :
       simp [he'] at hx
     simp [he', this]
 
+/-! ## two managers side by side -/
+
+/-- two session managers alive in one process: a tagged operation goes to one of them -/
+def stepPair (cfg : Cfg κ ν) (p : Store ι κ ν × Store ι κ ν) (x : Bool × Int × Op ι κ ν) :
+    (Store ι κ ν × Store ι κ ν) × Out ι κ ν (Store ι κ ν) :=
+  if x.1 then (((step cfg p.1 x.2.1 x.2.2).1, p.2), (step cfg p.1 x.2.1 x.2.2).2)
+  else ((p.1, (step cfg p.2 x.2.1 x.2.2).1), (step cfg p.2 x.2.1 x.2.2).2)
+
+def runPairFrom (cfg : Cfg κ ν) (p : Store ι κ ν × Store ι κ ν) :
+    List (Bool × Int × Op ι κ ν) → (Store ι κ ν × Store ι κ ν) × List (Bool × Out ι κ ν (Store ι κ ν))
+  | [] => (p, [])
+  | x :: rest =>
+    let a := stepPair cfg p x
+    let b := runPairFrom cfg a.1 rest
+    (b.1, (x.1, a.2) :: b.2)
+
+theorem runPairFrom_proj (cfg : Cfg κ ν) (p : Store ι κ ν × Store ι κ ν) (xs : List (Bool × Int × Op ι κ ν)) :
+    (runPairFrom cfg p xs).1.1 = (runFrom cfg p.1 ((xs.filter (·.1)).map (·.2))).1
+    ∧ (runPairFrom cfg p xs).1.2 = (runFrom cfg p.2 ((xs.filter (fun y => !y.1)).map (·.2))).1
+    ∧ ((runPairFrom cfg p xs).2.filter (·.1)).map (·.2) = (runFrom cfg p.1 ((xs.filter (·.1)).map (·.2))).2
+    ∧ ((runPairFrom cfg p xs).2.filter (fun y => !y.1)).map (·.2)
+        = (runFrom cfg p.2 ((xs.filter (fun y => !y.1)).map (·.2))).2 := by
+  induction xs generalizing p with
+  | nil => simp [runPairFrom, runFrom]
+  | cons x rest ih =>
+    obtain ⟨b, now, op⟩ := x
+    cases b
+    · have := ih (stepPair cfg p (false, now, op)).1
+      simp only [runPairFrom, stepPair, Bool.false_eq_true, if_false] at *
+      simp [runFrom, this]
+    · have := ih (stepPair cfg p (true, now, op)).1
+      simp only [runPairFrom, stepPair, if_true] at *
+      simp [runFrom, this]
+
 /-! ## ids: what is live was supplied; a fresh supply never hits a live id -/
 
 theorem keys_touch (s : Store ι κ ν) (i : ι) (now : Int) : keys (touch s i now).1 = keys s := by
